@@ -241,6 +241,18 @@ static void roundtrip(const char* id, mjSpec* s0, mjModel* m0, const mjVFS* vfs)
 
 static void quiet_warning(const char*) {}
 
+// Fill recently freed heap blocks with a non-zero pattern before every origin is built, so that a read of uninitialised
+// or out-of-range heap memory by the code under test shows up as a wrong number instead of an accidental zero.
+static void dirty_heap() {
+  static void* blk[4096];
+  for (int i = 0; i < 4096; i++) {
+    size_t n = 16 + (size_t)(i % 61) * 16;
+    blk[i] = malloc(n);
+    if (blk[i]) memset(blk[i], 0x3f, n);
+  }
+  for (int i = 0; i < 4096; i++) free(blk[i]);
+}
+
 static void dump_defaults() {
   mjSpec* spec = mj_makeSpec();
   mjsBody* world = mjs_findBody(spec, "world");
@@ -312,6 +324,7 @@ int main() {
       g_tol = strtod(line + off, nullptr);
       printf("ok tol %g\n", g_tol);
     } else if (!strcmp(op, "model")) {
+      dirty_heap();
       sscanf(line + off, "%255s", id);
       char err[2000] = "";
       mjSpec* s0 = mjb_build(stdin, err, sizeof err);
@@ -333,6 +346,7 @@ int main() {
       }
       mj_deleteSpec(s0);
     } else if (!strcmp(op, "xml") || !strcmp(op, "file")) {
+      dirty_heap();
       int off2 = 0;
       sscanf(line + off, "%255s %n", id, &off2);
       const char* arg = line + off + off2;
